@@ -560,6 +560,37 @@ pub fn run_property(p: &dyn Property, opt: &Options) -> i32 {
             return 2;
         }
     }
+    // digest of everything that must be a pure function of (seed, code): used by selftest/determinism.sh
+    {
+        let mut d = crate::prng::Fnv::new();
+        let mut cv: Vec<u64> = agg.cover.iter().copied().collect();
+        cv.sort_unstable();
+        for x in cv {
+            d.u64(x);
+        }
+        let mut sv: Vec<u64> = agg.states.iter().copied().collect();
+        sv.sort_unstable();
+        for x in sv {
+            d.u64(x);
+        }
+        for (k, v) in &agg.probes {
+            d.str(k);
+            d.u64(*v);
+        }
+        for (k, v) in &agg.faults {
+            d.str(k);
+            d.u64(*v);
+        }
+        d.u64(agg.sim_t);
+        d.u64(agg.units);
+        d.u64(agg.ambiguous);
+        for (i, _, f) in &agg.fails {
+            d.u64(*i);
+            d.str(&f.site);
+            d.str(&f.witness);
+        }
+        println!("DIGEST property={} seed={} runs={} {:016x}", p.id(), opt.seed, n, d.get());
+    }
     println!(
         "SUMMARY property={} tier={} runs={} distinct={} states={} units={} sim_s={:.1} violations={} known={} wall_s={:.1}",
         p.id(),
